@@ -416,7 +416,12 @@ def run_query(q, tier, workroot, kf_open, keep=False):
             res.update(verdict="error", detail=("; ".join(errors) + err[-1500:] + out[-1500:])[-3000:])
             return res
         odd = [r for r in results if r.get("status") not in ("SUCCESS", "FAILURE")]
-        if odd or errors:
+        hard_fail = [r for r in results if r.get("status") == "FAILURE" and not r.get("description", "").startswith("WITNESS")
+                     and ".unwind." not in r.get("property", "") and "unwinding" not in r.get("description", "")]
+        if odd and hard_fail:
+            results = [r for r in results if r.get("status") in ("SUCCESS", "FAILURE")]     # undecided properties next to definite failures: report the failures
+            odd = []
+        if odd or (errors and not hard_fail):
             res.update(verdict="error", detail=("solver/engine error: " + "; ".join(errors)[:600] + " statuses=" +
                                                  str(sorted({r.get("status") for r in odd})))[:1500])
             return res
